@@ -137,7 +137,9 @@ let () =
         let o = parse_op os in
         let (s', r) = step1 m_ th pg ov jk fixed !s o in
         let (l', r0) = step0 !l o in
-        if !bad = None && (abs_out m_ r <> r0 || abs m_ s' <> l') then bad := Some (n, os);
+        (* level 0 has no capacity: an error status of a capacity-limited operation (not of Unflatten) is outside its domain *)
+        let cap_err = (r = R1St StErr) && (match o with OUnflatten _ -> false | _ -> true) in
+        if !bad = None && not cap_err && (abs_out m_ r <> r0 || abs m_ s' <> l') then bad := Some (n, os);
         s := s'; l := abs m_ s';     (* level 0 follows level 1 so that one deviation is reported once *)
         Buffer.add_string buf (show_out1 r); Buffer.add_char buf ' ';
         Buffer.add_string buf (show_state s'); Buffer.add_char buf ';') ops;
